@@ -104,6 +104,8 @@ pub struct World {
     pub viss: Option<crate::fam_viss::VissConn>,
     pub grpc: Option<crate::fam_prov::Grpc>,
     pub sprovs: HashMap<usize, crate::fam_prov::ProvStream>,
+    pub v1streams: HashMap<Tok, crate::fam_prov::V1Stream>,
+    pub sdvstreams: HashMap<Tok, crate::fam_prov::SdvStream>,
     pub scopes: Vec<String>,
     pub ms_windows: bool,
     /// the VISS server of this case runs with authorization disabled (some VISS operation carries token kind 3)
@@ -128,6 +130,8 @@ impl World {
             viss: None,
             grpc: None,
             sprovs: HashMap::new(),
+            v1streams: HashMap::new(),
+            sdvstreams: HashMap::new(),
             scopes: vec![],
             ms_windows: false,
             viss_open: false,
@@ -571,7 +575,7 @@ async fn step_inner(w: &mut World, l: &[Tok], start: SystemTime) -> Vec<Vec<Tok>
             }
         }
         50..=55 => crate::fam_viss::step_viss(w, op, &mut c, start).await,
-        60 | 61 => crate::fam_prov::step_prov(w, op, &mut c).await,
+        60..=63 => crate::fam_prov::step_prov(w, op, &mut c).await,
         41 => {
             let Some(h) = c.next() else { return bad };
             if let Some(s) = w.qsubs.get_mut(h as usize) {
